@@ -28,11 +28,21 @@ fn gen(rng: &mut Rng, _i: u64) -> String {
 	// header field mutations
 	match rng.below(14) {
 		0 => spec.opt_size = *rng.pick(&[0u16, 2, 4, 6, 0xE0, 0xF0, 0xFFFF, 0xFFFC, 1, 3, 0xE2]),
-		1 => spec.nrva = *rng.pick(&[0u32, 1, 15, 16, 17, 0xFFFF_FFFF, 0x8000_0000]),
+		1 | 5 => spec.nrva = *rng.pick(&[0u32, 1, 15, 16, 17, 0xFFFF_FFFF, 0x8000_0000, 0x2000_0000, 0x2000_0001, 0x4000_0000, 0x1000_0000, 0x1000_0002, 0x6000_000F, 0x2000_0010, 18, 0x1F]),
 		2 => spec.nsec_field = *rng.pick(&[0u16, 1, 3, 96, 97, 65535]),
 		3 => spec.magic = *rng.pick(&[0x10bu16, 0x20b, 0x107, 0, 0x20c]),
 		4 => spec.opt_size = spec.opt_size.wrapping_add(*rng.pick(&[1u16, 2, 3, 4, 8])),
 		_ => {},
+	}
+	// dedicated shape: a huge NumberOfRvaAndSizes with a buffer that ends inside the 16 entries the accessor hands out
+	let short_dirs = rng.chance(1, 12);
+	if short_dirs {
+		spec.nrva = *rng.pick(&[0x2000_0000u32, 0x2000_0001, 0x4000_0000, 0x8000_0000, 0x8000_0003, 0xFFFF_FFFF, 0x1000_0000, 16, 17, 0x2000_000F]);
+		spec.dirs.truncate(0);
+		spec.secs.truncate(0);
+		spec.nsec_field = 0;
+		spec.opt_size = if pe64 { 112 } else { 96 };
+		spec.magic = if pe64 { 0x20b } else { 0x10b };
 	}
 	let mut nt = {
 		// header bytes relative to e_lfanew, written through a spec with e_lfanew = 0x40 and then cut
@@ -45,12 +55,13 @@ fn gen(rng: &mut Rng, _i: u64) -> String {
 	let len: usize = match rng.below(10) {
 		0 => struct_end,
 		1 => struct_end.saturating_sub(1),
-		2 => e_lfanew as usize + spec.nt_size() as usize + *rng.pick(&[0usize, 1, 8 * ndirs, 8 * ndirs + 1]) - if rng.chance(1, 2) { 1 } else { 0 },
+		2 | 7 => e_lfanew as usize + spec.nt_size() as usize + *rng.pick(&[0usize, 1, 8, 16, 64, 120, 127, 128, 129, 8 * ndirs, 8 * ndirs + 1]) - if rng.chance(1, 2) { 1 } else { 0 },
 		3 => if rng.chance(1, 3) { *rng.pick(&[0usize, 1, 63, 64, 65, 96, 97, 128]) } else { struct_end + 4 * rng.below(64) as usize },
 		4 => e_lfanew as usize + *rng.pick(&[4usize, 24, 119, 120, 121, 135, 136, 137]),
 		5 => struct_end + 1 + rng.below(7) as usize,      // lengths that are not multiples of four
 		_ => struct_end + rng.below(0x600) as usize,
 	};
+	let len = if short_dirs { e_lfanew as usize + spec.nt_size() as usize + *rng.pick(&[0usize, 8, 16, 64, 120, 127, 128, 129, 136]) } else { len };
 	spec.soh = match rng.below(8) { 0 => 0, 1 => len as u32, 2 => len as u32 + 1, 3 => struct_end as u32, _ => (len as u32).min(0x400) };
 	spec.soi = match rng.below(8) { 0 => spec.soh, 1 => spec.soh.wrapping_sub(1), 2 => 0xFFFF_FFFF, _ => spec.soh.max(0x3000) };
 	// re-render NT part with the final soh / soi
@@ -66,6 +77,23 @@ fn gen(rng: &mut Rng, _i: u64) -> String {
 	let fill = if rng.chance(1, 3) { 0 } else { rng.range(1, 999) as u32 };
 	// the NT part may overlap the DOS header when e_lfanew < 64: write DOS first, then NT, then e_lfanew again only if it was not overwritten on purpose
 	let img = Image { len, fill: if huge { 0 } else { fill }, hdr: dos, pokes: vec![(e_lfanew as usize, nt)] };
+	let mut img = img;
+	if !huge && rng.chance(1, 6) && len >= 0x30 && e_lfanew >= 0x40 {
+		// make the one's-complement word sum of the file (CheckSum field skipped) a multiple of 0xFFFF:
+		// the folded 16-bit sum is then exactly 0xFFFF, the one value where a fold written as a plain modulo differs
+		let bytes = img.bytes();
+		let skip = e_lfanew as usize + 24 + 64;
+		let mut sum: u64 = 0;
+		let mut k = 0;
+		while k < bytes.len() {
+			let w = bytes[k] as u64 | ((if k + 1 < bytes.len() { bytes[k + 1] } else { 0 }) as u64) << 8;
+			if !(k == skip || k == skip + 2 || k == 0x28) { sum += w; }
+			k += 2;
+		}
+		let r = sum % 0xFFFF;
+		let w = (0xFFFF - r) as u16; // in 1..=0xFFFF
+		img.pokes.push((0x28, w.to_le_bytes().to_vec()));
+	}
 	let place = *rng.pick(&[0usize, 0, 0, 4, 8, 12, 4, 8, 12, 0, 4, 8, 1, 2, 6]);
 	// lookups
 	let mut rvas: Vec<u32> = vec![0, 0x1000, 0xFFF, 0xFFFF_FFFF];
